@@ -58,7 +58,7 @@ func (s *slicePeeker) Read(p []byte) (int, error) {
 }
 
 var c16Alphabet = []byte{0x47, 0x00, 0x10, 0x05, 0x1f}
-var c16Readers = []string{"bufio16", "bufio4096", "slice", "bufio16-onebyte"}
+var c16Readers = []string{"bufio16", "bufio4096", "slice", "bufio16-onebyte", "bufio188", "bufio512"}
 
 func (c16) Gen(tier string, seed int64, emit func([]Ev)) {
 	r := rand.New(rand.NewSource(seed))
@@ -67,6 +67,11 @@ func (c16) Gen(tier string, seed int64, emit func([]Ev)) {
 		maxLen, nrand = 9, 200000
 	}
 	c16IsSynced(r, emit)
+	if tier == "thorough" {
+		c16Structured(r, 3000, emit)
+	} else {
+		c16Structured(r, 200, emit)
+	}
 	// bounded-exhaustive: every stream of length <= maxLen over the alphabet
 	var rec func(prefix []byte)
 	n := 0
@@ -125,6 +130,61 @@ func (c16) Gen(tier string, seed int64, emit func([]Ev)) {
 	}
 }
 
+// c16Structured: real transport streams behind a run of bytes that holds no plausible header at all - a
+// damaged first packet (run of 188), runs around one and two packet lengths, runs around typical reader
+// buffer sizes - optionally with false sync bytes (0x47 followed by a reserved PID or AFC 00) inside the run.
+func c16Structured(r *rand.Rand, n int, emit func([]Ev)) {
+	lens := []int{0, 1, 3, 4, 5, 15, 16, 17, 183, 184, 185, 186, 187, 188, 189, 190, 191, 192, 200, 372, 373, 374, 375, 376, 377, 380, 510, 511, 512, 513, 600}
+	for i := 0; i < n; i++ {
+		g := lens[i%len(lens)]
+		if i >= 3*len(lens) {
+			g = r.Intn(700)
+		}
+		var st []byte
+		for k := 0; k < g; k++ {
+			b := byte(r.Intn(256))
+			if b == 0x47 {
+				b = 0x46
+			}
+			st = append(st, b)
+		}
+		if i%3 == 1 { // false sync bytes inside the run: reserved PID 0x0004..0x000f, or AFC 00
+			for k := 0; k+4 <= g; k += 1 + r.Intn(40) {
+				if r.Intn(2) == 0 {
+					copy(st[k:], []byte{0x47, 0x00, byte(4 + r.Intn(12)), 0x10})
+				} else {
+					copy(st[k:], []byte{0x47, byte(r.Intn(32)), byte(r.Intn(256)), byte(r.Intn(4)<<6 | r.Intn(16))})
+				}
+				if k+4 < g && st[k+4] == 0x47 {
+					st[k+4] = 0x46
+				}
+			}
+			// the last bytes of the run must not combine with the packet that follows into an earlier header
+			for k := g - 3; k < g; k++ {
+				if k >= 0 && st[k] == 0x47 {
+					st[k] = 0x46
+				}
+			}
+		}
+		for np := 1 + r.Intn(3); np > 0; np-- {
+			var p [188]byte
+			for k := range p {
+				p[k] = byte(r.Intn(256))
+				if p[k] == 0x47 {
+					p[k] = 0x48
+				}
+			}
+			pid := 0x10 + r.Intn(0x1ff0)
+			p[0], p[1], p[2], p[3] = 0x47, byte(pid>>8), byte(pid), 0x10|byte(r.Intn(16))
+			st = append(st, p[:]...)
+		}
+		if i%4 == 3 {
+			st = st[:len(st)-r.Intn(188)] // the last packet cut by the end of the stream
+		}
+		emit([]Ev{{"op": "sync", "stream": B(st), "reader": c16Readers[i%len(c16Readers)]}})
+	}
+}
+
 // c16IsSynced: IsSynced on every AFC value x PIDs around the reserved range x first-byte variants,
 // and on streams shorter than a header.
 func c16IsSynced(r *rand.Rand, emit func([]Ev)) {
@@ -157,6 +217,12 @@ func (c16) Exec(h []Ev) []Ev {
 			rd, rest = b, b
 		case "bufio4096":
 			b := bufio.NewReaderSize(bytes.NewReader(s), 4096)
+			rd, rest = b, b
+		case "bufio188":
+			b := bufio.NewReaderSize(bytes.NewReader(s), 188)
+			rd, rest = b, b
+		case "bufio512":
+			b := bufio.NewReaderSize(iotest.HalfReader(bytes.NewReader(s)), 512)
 			rd, rest = b, b
 		case "bufio16-onebyte":
 			b := bufio.NewReaderSize(iotest.OneByteReader(bytes.NewReader(s)), 16)
